@@ -266,6 +266,49 @@ func runC07(w *W) {
 			}
 		}
 	}
+	// index buffers filled to the brim: [1,1,...] with one space, swept over total length and the
+	// partly indexed blocks near the end (a round may end with 1408+63 entries, the tail adds up to 64)
+	k := 0
+	type apar struct{ j, a, b, t int }
+	var fam []apar
+	for j := 130; j <= 180; j += 2 {
+		for _, a := range []int{0, 2, 62, 64} {
+			for _, b := range []int{0, 62, 64} {
+				for _, t := range []int{0, 2, 62, 64} {
+					fam = append(fam, apar{j, a, b, t})
+				}
+			}
+		}
+	}
+	for _, f := range fam {
+		{
+			k++
+			if !w.mine(k) {
+				continue
+			}
+			d := c07Doc{name: fmt.Sprintf("aligned-partial-j%d-a%d-b%d-t%d", f.j, f.a, f.b, f.t), data: alignedPartial(f.j, f.a, f.b, f.t)}
+			a := ref.Analyze(d.data)
+			if a.Class != ref.MustAccept {
+				continue
+			}
+			runtime.GOMAXPROCS(4)
+			w.setKernel(false)
+			ring.Reset(sched.Natural, 0)
+			w.JournalText("c07-baseline", d.name)
+			pj, err := simdjson.Parse(d.data, nil)
+			ring.Finish(err == nil)
+			if err != nil {
+				w.Count("baseline_outcome_differs_from_reference_(C01)", 1)
+				continue
+			}
+			base := &c07Base{ok: true, tape: append([]uint64{}, pj.Tape...), strs: append([]byte{}, pj.Strings.B...)}
+			cs := &ev.Case{Gen: "c07", Input: d.data}
+			for _, pol := range []sched.Policy{sched.Natural, sched.ConsumerLag} {
+				idx++
+				w.c07Run(ring, d, false, pol, 2, idx%2 == 0, w.Out.Seed*1000+uint64(idx), base, cs)
+			}
+		}
+	}
 	runtime.GOMAXPROCS(2)
 	if rs, _, _ := simdjson.VerifRingInfo(); rs > 0 {
 		w.Max("ring_slots", int64(rs))
